@@ -5,6 +5,8 @@ import SqlProofs.Respell.All
 import SqlProofs.WsInv.WsInvariant
 import SqlProofs.WsRespell.Theorem
 import SqlProofs.WsRespell.Text
+import SqlProofs.WsRespell.SqueezeTheorem
+import SqlProofs.WsRespell.SqueezeText
 /-!
 # C11 — parsing is insensitive to inter-token whitespace and keyword letter case
 
@@ -74,7 +76,16 @@ characters in the gaps (so `\r\n` may straddle what used to be two whitespace to
 theorem respelled_text_lexes_equivalently_runwise : type_of% @Sql.ws_respell_text := @Sql.ws_respell_text
 /-- the hypothesis is neither vacuous nor trivially true -/
 theorem wsRespellable_examples : type_of% @Sql.wsRespellable_examples := @Sql.wsRespellable_examples
-/- NOT proved: re-spellings that change the LENGTH of a whitespace run (`a  b` vs `a b`): stated as `Sql.WsRespellLexAnyConjecture : Prop`
-in SqlProofs/WsRespell/Theorem.lean (a definition, not a theorem); explored by the metamorphic oracle only. -/
+/-- **length-changing whitespace runs** (SqlProofs/WsRespell/Squeeze*.lean): if a text lexes to `toks`, `toks` satisfies the decidable
+`wsRespellableAny` (driver command `wsrespellany`; evaluated on the squeezed token list — every whitespace run one blank — so one certificate
+serves all spellings), and `toks'` replaces the value of every whitespace token by ANY non-empty string of whitespace characters, then the
+re-spelled text lexes to a token list `WsEquiv` to the original.  Proof: every rule of the table is in the "run class" (whitespace consumed only
+by `\s*`/`\s+` loops whose continuation is dead on whitespace; `rules_in_run_class`, decided by the kernel: 42 of 52 rules) or must be killed /
+matched exactly by the per-token certificate; derivations on a text correspond one-to-one, in order, to derivations on its squeezed form
+(`Sql.corr_derivs`).  `wsRespellableAny` and `wsRespellable` are independent hypotheses (different per-rule conditions). -/
+theorem respelled_runs_of_any_length_lex_equivalently : type_of% @Sql.ws_respell_any_lex := @Sql.ws_respell_any_lex
+theorem respelled_runs_of_any_length_lex_equivalently_text : type_of% @Sql.ws_respell_any_text := @Sql.ws_respell_any_text
+theorem rules_in_run_class : type_of% @Sql.rules_in_class := @Sql.rules_in_class
+theorem wsRespellableAny_examples : type_of% @Sql.wsRespellableAny_examples := @Sql.wsRespellableAny_examples
 
 end Sql.C11
